@@ -5,7 +5,7 @@
    No Extract Constant / Extract Inductive of our own. *)
 Require Extraction.
 Require Import ExtrOcamlBasic.
-From Otter Require Import Base Sketch Seq Spec Policy Wheel Maint Ring Mpsc HashMap Load Drain DrainMacro.
+From Otter Require Import Base Sketch Seq Spec Policy Wheel Maint Ring Mpsc HashMap Load Drain DrainMacro Striped.
 (* run with cwd = /verif/ocaml: the extracted files land in the current directory *)
 Extraction "model.ml"
   Base.wrapu Base.wraps Base.satadd Base.abs64
@@ -25,4 +25,5 @@ Extraction "model.ml"
   HashMap.h1 HashMap.h2 HashMap.broadcast HashMap.markZeroBytes HashMap.firstMarkedByteIndex HashMap.setByte
   Load.lstate0 Load.lstep Load.lmap Load.ltable Load.alookup Load.in_flight
   Drain.dstep Drain.ds_of Drain.lock_of Drain.wb_of Drain.ths_of Drain.all_done Drain.terminal Drain.drained
-  DrainMacro.macro_step DrainMacro.add_thread DrainMacro.enabled DrainMacro.dstate0 DrainMacro.pc_at.
+  DrainMacro.macro_step DrainMacro.add_thread DrainMacro.enabled DrainMacro.dstate0 DrainMacro.pc_at
+  Striped.sstep Striped.sadd Striped.sstate0 Striped.tables Striped.cur Striped.busy Striped.rings Striped.sths Striped.spc_ Striped.idx Striped.elem Striped.attempt Striped.snap.
